@@ -23,7 +23,16 @@ def rule1d(levels, sigma, n):
 
 
 XT, WT = rule1d(12, 0.15, 6)
-XS, WS = rule1d(4, 0.15, 5)
+_XS = {l: rule1d(l, 0.15, 5) for l in (1, 2, 3, 4)}
+
+
+def space_rule(width):
+    """Both-end graded 5-point rule whose nodes keep the documented distance (> 1e-5, here >= 2e-5) from the cell ends."""
+    for l in (4, 3, 2, 1):
+        x, w = _XS[l]
+        if width * float(x.min()) >= 2e-5:
+            return x, w
+    raise common.HarnessError('cell of width {} too small for the interval rule precondition'.format(width))
 
 
 def setup(problem, domain, exact, h):
@@ -66,6 +75,7 @@ def task(item):
         for i in range(len(ts) - 1):
             for j in range(len(xs) - 1):
                 T = ts[i] + (ts[i + 1] - ts[i]) * XT
+                XS, WS = space_rule(xs[j + 1] - xs[j])
                 Xh = xs[j] + (xs[j + 1] - xs[j]) * XS
                 TT, XX = np.meshgrid(T, Xh, indexing='ij')
                 WW = np.outer(WT, WS) * (ts[i + 1] - ts[i]) * (xs[j + 1] - xs[j])
@@ -112,6 +122,22 @@ def run(ctx):
                     meshes['{}/{}/exact={}'.format(problem, domain, exact)] = meshes.get('{}/{}/exact={}'.format(problem, domain, exact), 0) + 1
                     for idx in range(n_leaves):
                         items.append((problem, domain, exact, h, idx))
+    # directed deep roots (graded towards t = 0 and a corner / the seam): three and more time slabs with space levels
+    # differing by two and more between non-adjacent slabs (nested panels without a common end point)
+    deep_plan = [('Dirichlet', 'UnitSquare')] if ctx.tier == 'quick' else [('Dirichlet', d) for d in ('UnitSquare', 'PiSquare', 'LShape', 'Circle')] + [('Singular', 'UnitSquare'), ('MildSingular', 'Circle')]
+    for problem, domain in deep_plan:
+        cfgname = driver.DOMAIN_CFG[domain]
+        roots = meshmc.deep_histories(cfgname, 3)
+        for name in (('corner', ) if ctx.tier == 'quick' else ('corner', 't0', 'seamL', 'seamR')):
+            h = roots[name]
+            for exact in (False, True):
+                if (problem, domain, exact, h) in seen:
+                    continue
+                seen.add((problem, domain, exact, h))
+                n_leaves = len(meshmc.build(meshmc.CFGS[cfgname], h).leaf_elements)
+                meshes['{}/{}/exact={}'.format(problem, domain, exact)] = meshes.get('{}/{}/exact={}'.format(problem, domain, exact), 0) + 1
+                for idx in range(n_leaves):
+                    items.append((problem, domain, exact, h, idx))
     # keep items of one mesh adjacent (setup is cached per worker) but spread meshes over workers
     res = pmap(task, items, ctx.jobs, chunksize=max(1, len(items) // (ctx.jobs * 12)))
     n = skipped = 0
@@ -131,7 +157,7 @@ def run(ctx):
     cov = {'evaluations': n, 'distinct_nontrivial': n,
            'rule': 'one case = (problem, domain, switch, leaf-set-distinct mesh state, leaf); distinct by construction; meshes containing a leaf of aspect > 32 skipped',
            'meshes_per_combination': meshes, 'worst_ratio_abs_int_r_over_int_abs_r': {k: float('%.3g' % v) for k, v in sorted(worst.items())},
-           'elements_skipped_by_aspect': skipped, 'rule_points_per_cell': [len(XT), len(XS)],
+           'elements_skipped_by_aspect': skipped, 'rule_points_per_cell': [len(XT), 'space: 5-point, 1-4 geometric levels per side chosen so that nodes stay >= 2e-5 from the cell ends'],
            'samples': [{'problem': items[0][0], 'domain': items[0][1], 'exact': items[0][2], 'history': list(items[0][3]), 'leaf_index': items[0][4]},
                        {'problem': items[-1][0], 'domain': items[-1][1], 'exact': items[-1][2], 'history': list(items[-1][3]), 'leaf_index': items[-1][4]}],
            'exhaustive': True}
